@@ -13,15 +13,12 @@
 (defun add-parameters (params args env)
   ""
   (if params
-      (let (first-param (car params)
-            rest-params (cdr params)
-            first-arg   (car args)
-            rest-args   (cdr args))
-        (if (= first-param '&)
-            (cons (cons (car rest-params) args)
-                  env)
-            (cons (cons first-param first-arg)
-                  (add-parameters rest-params rest-args env))))
+      (if (= (car params) '&)
+          ;; the rest parameter takes whatever is left, possibly nothing
+          (cons (cons (car (cdr params)) args)
+                env)
+          (cons (cons (car params) (car args))
+                (add-parameters (cdr params) (cdr args) env)))
       env))
 
 (defun highlight-list-elem (elems n)
